@@ -189,11 +189,31 @@ def swap_with_last(rep, cmod):
     if not ok:
         rep.violate('C09.swap', cmod, g, body_no_doc(g)[0], 'GrowingList.__setitem__ must pad with None up to and including index, then store', node=g)
     g = cmod.func('GrowingList.free_index')
-    txt = [norm(s).replace(' ', '') for s in body_no_doc(g)]
-    ok = txt in (['returnnext((ifor(i,x)inenumerate(self)ifxisNone),len(self))'], ['returnnext((ifori,xinenumerate(self)ifxisNone),len(self))'])
-    rep.ob('C09.swap', 'GrowingList.free_index = first None position or len', ok)
-    if not ok:
-        rep.violate('C09.swap', cmod, g, body_no_doc(g)[0], 'free_index must return the first position holding None, or len(self)', node=g)
+    # evaluated (Engine M) on every list of length <= 4 over {None, object}
+    import itertools
+    from kvstatic import minieval
+    from kvstatic.core import ModelError as _ME
+    bad = None
+    try:
+        for n in range(0, 5):
+            for pat in itertools.product((None, 'x'), repeat=n):
+                try:
+                    got = minieval.call_function(g, [list(pat)])
+                except (IndexError, KeyError, TypeError, StopIteration) as e:
+                    got = type(e).__name__
+                want = pat.index(None) if None in pat else n
+                if got != want and bad is None:
+                    bad = (list(pat), got, want)
+        ok = bad is None
+        rep.ob('C09.swap', 'GrowingList.free_index = first None position or len (evaluated on all lists up to length 4)', ok, evals=31)
+        if not ok:
+            rep.violate('C09.swap', cmod, g, body_no_doc(g)[0], f'free_index must return the first position holding None, or len(self): for {bad[0]} it returns {bad[1]} instead of {bad[2]}', node=g)
+    except _ME:
+        txt = [norm(s).replace(' ', '') for s in body_no_doc(g)]
+        ok = txt in (['returnnext((ifor(i,x)inenumerate(self)ifxisNone),len(self))'], ['returnnext((ifori,xinenumerate(self)ifxisNone),len(self))'])
+        rep.ob('C09.swap', 'GrowingList.free_index = first None position or len', ok)
+        if not ok:
+            rep.violate('C09.swap', cmod, g, body_no_doc(g)[0], 'free_index must return the first position holding None, or len(self)', node=g)
 
 
 def backrefs(rep, repo):
